@@ -26,6 +26,15 @@ class _Lit(ast.NodeTransformer):
                 ast.Call(ast.Name("_K", ast.Load()), [ast.Constant(repr(n.value))], []), n)
         return n
 
+    def _keep_decorators(self, n):
+        # arguments of decorators configure Python machinery (lru_cache(maxsize=32), dataclass(order=True)): they stay plain
+        decs, n.decorator_list = n.decorator_list, []
+        n = self.generic_visit(n)
+        n.decorator_list = decs
+        return n
+
+    visit_FunctionDef = visit_AsyncFunctionDef = visit_ClassDef = _keep_decorators
+
     def visit_JoinedStr(self, n):
         return n  # leave f-strings alone (format specs are strings anyway)
 
@@ -70,6 +79,22 @@ def load(dotted: str, rebind: dict | None = None, pre: dict | None = None) -> ty
     if rebind:
         m.__dict__.update(rebind)
     m.__sx_source_hash__ = hashlib.sha256(src.encode()).hexdigest()[:16]
+
+    def _reset(d=m.__dict__):
+        # functools.lru_cache / cache on functions of the analysed module: every explored path is a fresh process as far as
+        # the analysed code can tell (within one path the memo works as written, so aliasing through it is visible)
+        import functools
+        lru = type(functools.lru_cache(lambda: None))
+        for v in list(d.values()):
+            if isinstance(v, lru):
+                v.cache_clear()
+            elif isinstance(v, type) and v.__dict__.get("__module__") == m.__name__:
+                for w in list(vars(v).values()):
+                    f = getattr(w, "__func__", w)
+                    if isinstance(f, lru):
+                        f.cache_clear()
+    from . import sym as _sym
+    _sym.PATH_RESETS.append(_reset)
     return m
 
 
